@@ -74,9 +74,11 @@ HintOK(r) == r.op = "size_hint" => (r.lo <= r.rem /\ (r.hi = -1 \/ r.hi >= r.rem
 
 (* ---- rayon ---- *)
 P0(new) == [n |-> new.n, c |-> 0, pos0 |-> new.pos0]
-ParStep(P, r) == IF r.op = "item" /\ r.got >= 0 THEN [P EXCEPT !.c = @ + 1] ELSE P
+(* "items": Folder::consume_iter; r.got = how many of them the base folder (the harness's own) took *)
+ParStep(P, r) == IF r.op = "item" /\ r.got >= 0 THEN [P EXCEPT !.c = @ + 1]
+                 ELSE IF r.op = "items" /\ r.got >= 0 THEN [P EXCEPT !.c = @ + r.got] ELSE P
 ParPosOK(P1, r) == r.pos = WrapAdd(P1.pos0, FromSmall(P1.c)) \/ (r.fin /\ P1.c = P1.n)     \* once everything is consumed the finish behaviour may apply
 ParNotEarly(P1, r) == r.fin => P1.c = P1.n
-ParItemOK(r) == r.op = "item" => r.got = r.want
+ParItemOK(r) == (r.op = "item" => r.got = r.want) /\ (r.op = "items" => r.got = r.expect)
 ParEndOK(r) == r.op = "end" => r.got = -1
 =============================================================================
